@@ -979,7 +979,19 @@ impl Run {
                     self.net.lock().unwrap().stall_next.remove(&me);
                 }
                 if let Some((_, _, replies, _)) = watch {
-                    if replies > FAIRNESS_BOUND {
+                    // the start of the round is recognised by its first SYN: a name-resolution refresh
+                    // that fell inside the window may have emptied the seed set (the lookup fails
+                    // since an earlier Dns command), and a round without targets sends nothing.
+                    // The oracle only speaks when the node still had a target at the end.
+                    let still_has_target = match self.srv[i].handle.as_ref() {
+                        Some(h) => tokio::time::timeout(Duration::from_millis(self.cfg.interval_ms * 10), h.with_chitchat(|c| { let own = c.self_chitchat_id().gossip_advertise_addr; c.node_states().len() > 1 || c.seed_nodes().iter().any(|a| *a != own) })).await.unwrap_or(false),
+                        None => false,
+                    };
+                    self.resync_clock();
+                    if replies > FAIRNESS_BOUND && !still_has_target {
+                        self.net.lock().unwrap().stats.inc("probe_flood_round_lost_its_targets");
+                    }
+                    if replies > FAIRNESS_BOUND && still_has_target {
                         return Err(viol(
                             self.step,
                             "C19.round_starved",
